@@ -212,6 +212,8 @@ type vBalOut struct {
 // an odd count means the name itself starts with a blank.
 var vBalRowRe = regexp.MustCompile(`^ *(` + vNumPat + `) \| ( *)(\S.*)$`)
 
+var vBalEmptyRowRe = regexp.MustCompile(`^ *(` + vNumPat + `) \| ( *)$`)
+
 func vReadBalance(out string, single bool) vBalOut {
 	var b vBalOut
 	lines := vLines(out)
@@ -229,6 +231,12 @@ func vReadBalance(out string, single bool) vBalOut {
 	var stack []string
 	for _, ln := range lines {
 		m := vBalRowRe.FindStringSubmatch(ln)
+		if m == nil {
+			// an empty path segment ("a//b", "/a", "a/"): the row ends after its indentation
+			if e := vBalEmptyRowRe.FindStringSubmatch(ln); e != nil && len(e[2])%2 == 0 {
+				m = []string{ln, e[1], e[2], ""}
+			}
+		}
 		if m == nil {
 			vViolate("balance: unreadable row %q", ln)
 		}
